@@ -45,3 +45,13 @@ def run(rep, ctx, anchor, rule="R3"):
                 ("verdict of %s at %s %s" % (callee, t["span"], "is consumed" if ok else
                                               "is computed and dropped: its boolean cannot influence the outcome")),
                 t["span"])
+        # a sub-verifier that sits in a loop runs for every element: no path completes an iteration around it
+        from .everyiter import bypass_of_block
+        from .rng import cyclic_blocks
+        b = f.bodies[bid]
+        if i in cyclic_blocks(b):
+            by = bypass_of_block(b, i)
+            rep.add(rule, key + ":every-iteration", by is None,
+                    "the sub-verifier call at %s lies on every non-refusing path of its loop iteration" % t["span"] if by is None else
+                    "one iteration of the loop around the sub-verifier call at %s can complete without it (via %s): that "
+                    "element is not verified" % (t["span"], by), t["span"])
